@@ -23,7 +23,7 @@ def make_frame(rng, target, n=None, ties=False):
     # missing values on OTHER rows than qnan (pairwise-complete correlations differ from correlations of separately ranked columns), and a feature whose observed
     # values are concentrated on one value but which is mostly missing (its mode is frequent among the observed values only)
     Q['qnan2'] = np.where(np.array([rng.random() for _ in range(n)]) < 0.35, np.nan, z2 + noise(0.4))
-    Q['qmodenan'] = np.where(np.array([rng.random() for _ in range(n)]) < 0.6, np.nan, np.where(np.array([rng.random() for _ in range(n)]) < 0.9, 1.0, z1 + 3))
+    Q['qmodenan'] = np.where(np.array([rng.random() for _ in range(n)]) < 0.6, np.nan, np.where(np.array([rng.random() for _ in range(n)]) < 0.97, 1.0, z1 + 3))
     X = pd.DataFrame({k: np.round(v, 4) for k, v in Q.items()})
     if ties: X['qa_x2'] = X['qa'] * 2.0                                                          # exact positive rescaling: exactly tied with qa on every rank-based measure
     def cat(v, k, names):
@@ -36,7 +36,10 @@ def make_frame(rng, target, n=None, ties=False):
     X['cchain_b'] = X['ca'] + '|' + cz; X['cchain_c'] = cz                                        # ca ~ cchain_b ~ cchain_c, but ca and cchain_c unrelated
     cn = cat(z2 + noise(0.3), 3, ['k1', 'k2', 'k3']); X['cnan_full'] = cn.map(lambda v: 'full_' + v)                 # the same categories without missing values (fully redundant with cnan)
     cn = cn.copy(); cn[np.array([rng.random() for _ in range(n)]) < 0.25] = np.nan; X['cnan'] = cn
-    quant = ['qa', 'qa_dup', 'qa_neg', 'qb', 'qnoise', 'qhalf', 'qconst', 'qnan', 'qchain_b', 'qchain_c', 'qnan2', 'qmodenan']; qual = ['ca', 'ca_dup', 'cb', 'cnoise', 'cconst', 'cnan', 'cnan_full', 'cchain_b', 'cchain_c', 'cbin_a', 'cbin_b', 'cbin_c']
+    # a strongly associated feature WITH missing values and a weaker near-duplicate of it without any (the better-ranked one is the one holding missing values)
+    cs = cat(z1 + noise(0.2), 3, ['s1', 's2', 's3']); cs[np.array([rng.random() for _ in range(n)]) < 0.3] = np.nan; X['cnanb'] = cs
+    X['cnanb_weak'] = cat(z1 + noise(0.7), 3, ['t1', 't2', 't3'])
+    quant = ['qa', 'qa_dup', 'qa_neg', 'qb', 'qnoise', 'qhalf', 'qconst', 'qnan', 'qchain_b', 'qchain_c', 'qnan2', 'qmodenan']; qual = ['ca', 'ca_dup', 'cb', 'cnoise', 'cconst', 'cnan', 'cnan_full', 'cchain_b', 'cchain_c', 'cbin_a', 'cbin_b', 'cbin_c', 'cnanb', 'cnanb_weak']
     if ties:
         X['ca_ren'] = X['ca'].map(lambda v: 'ren_' + v); quant.append('qa_x2'); qual.append('ca_ren')
     return X, y, quant, qual
@@ -234,25 +237,40 @@ def one(arg):
             rec('select#post.feature_with_undefined_measure_is_left_out', r4[0] == 'ok' and lone not in list(r4[1]), 'a lone constant %s feature: %r' % (dt, r4[1] if r4[0] == 'ok' else r4[0]), dict(dtype=dt, feature=lone))
         # a user-set thresh_mode: the mode share of a feature is taken over ALL rows (a mostly-missing feature whose observed values are concentrated is not 'constant')
         if kind == 'ClassificationSelector':
-            r6 = outcome(lambda: make_selector(kind, quant, [], n_best, thresh_corr=tc, thresh_mode=0.9).select(X, y))
-            e6, a6, _ = oracle_select(X, y, quant, 'float', n_best, tc, kruskal_h, thresh_mode=0.9)
+            nb6 = len(quant)          # every feature that passes the thresholds is returned (n_best = number of features, thresh_corr = 1): a wrongly failed threshold shows
+            r6 = outcome(lambda: make_selector(kind, quant, [], nb6, thresh_corr=1, thresh_mode=0.9).select(X, y))
+            e6, a6, _ = oracle_select(X, y, quant, 'float', nb6, 1, kruskal_h, thresh_mode=0.9)
             if r6[0] == 'ok' and not a6:
-                rec('select#post.best_ranked_mutually_unassociated_features', list(r6[1]) == e6, 'thresh_mode=0.9: returned %r, recomputation %r' % (list(r6[1]), e6), dict(dtype='float', thresh_mode=0.9))
+                rec('select#post.best_ranked_mutually_unassociated_features', list(r6[1]) == e6, 'thresh_mode=0.9, n_best=%d, thresh_corr=1: returned %r, recomputation %r' % (nb6, list(r6[1]), e6), dict(dtype='float', thresh_mode=0.9))
             elif r6[0] != 'ok': rec('select#raises.nothing_on_valid_input', False, 'thresh_mode=0.9: %s' % r6[0], dict(thresh_mode=0.9))
+        # thresholds placed just below and just above the TRUE association between two features that hold missing values (pairwise-complete Spearman rho / Tschuprow T):
+        # just below, only the better-ranked one may be returned; just above, both are
+        if kind == 'ClassificationSelector':
+            for dtype_, (fa, fb), assoc in (('float', ('qnan', 'qnan2'), lambda: abs(X[['qnan', 'qnan2']].corr('spearman').iloc[0, 1])), ('str', ('cnan', 'cnan_full'), lambda: tschuprow(X['cnan'], X['cnan_full'])), ('str', ('cnanb', 'cnanb_weak'), lambda: tschuprow(X['cnanb'], X['cnanb_weak']))):
+                true = assoc()
+                if not (0.05 < true < 0.95): continue
+                meas_ = kruskal_h if dtype_ == 'float' else tschuprow
+                va, vb = meas_(X[fa], y), meas_(X[fb], y)
+                if abs(va - vb) < 1e-9: continue
+                best = fa if va > vb else fb
+                for tc_, exp_ in ((true - 0.004, [best]), (true + 0.004, sorted([fa, fb], key=lambda f_: -meas_(X[f_], y)))):
+                    r7 = outcome(lambda: make_selector(kind, [fa, fb] if dtype_ == 'float' else [], [fa, fb] if dtype_ == 'str' else [], 2, thresh_corr=tc_).select(X, y))
+                    rec('select#post.best_ranked_mutually_unassociated_features', r7[0] == 'ok' and list(r7[1]) == exp_, 'features %s and %s (missing values on different rows), true association %.4f, thresh_corr %.4f: returned %r, expected %r' % (fa, fb, true, tc_, r7[1] if r7[0] == 'ok' else r7[0], exp_), dict(dtype=dtype_, pair=[fa, fb], thresh_corr=round(tc_, 4)))
         # two user-supplied association measures (thresholds set so that both are evaluated): at most n_best PER measure, i.e. the union of the per-measure selections
         from AutoCarver.selectors.measures import R_measure, kruskal_measure
         def eta(x, yy):
             ok = x.notna(); xs, ys = x[ok], yy[ok]; m = xs.mean(); ssb = sum(len(xs[ys == c]) * (xs[ys == c].mean() - m) ** 2 for c in ys.unique()); sst = ((xs - m) ** 2).sum()
             return math.sqrt(ssb / sst) if sst > 0 else float('nan')
-        r2 = outcome(lambda: make_selector(kind, quant, [], n_best, thresh_corr=tc, quantitative_measures=[kruskal_measure, R_measure], thresh_kruskal=float('inf')).select(X, y))
-        e1, a1, _ = oracle_select(X, y, quant, 'float', n_best, tc, kruskal_h); e2, a2, _ = oracle_select(X, y, quant, 'float', n_best, tc, eta)
+        quant2 = [f_ for f_ in quant if f_ != 'qmodenan']          # (a feature whose second measure is undefined -- 1-2 distinct observed values -- is left out of both rankings: not judged here)
+        r2 = outcome(lambda: make_selector(kind, quant2, [], n_best, thresh_corr=tc, quantitative_measures=[kruskal_measure, R_measure], thresh_kruskal=float('inf')).select(X, y))
+        e1, a1, _ = oracle_select(X, y, quant2, 'float', n_best, tc, kruskal_h); e2, a2, _ = oracle_select(X, y, quant2, 'float', n_best, tc, eta)
         if r2[0] == 'ok' and not a1 and not a2:
             rec('select#post.union_of_the_n_best_of_each_measure', set(r2[1]) == set(e1) | set(e2), 'measures [kruskal, R]: returned %r, per-measure recomputation %r and %r' % (list(r2[1]), e1, e2), dict(default_measures=False, dtype='float'))
         elif r2[0] != 'ok':
             rec('select#raises.nothing_on_valid_input', False, 'two measures: %s' % r2[0], dict(default_measures=False))
         # the returned list is ordered by the LAST requested association measure ("Ranks features based on last provided measure of the list")
         if r2[0] == 'ok' and not a1 and not a2 and len(r2[1]) > 1:
-            _, _, v_eta = oracle_select(X, y, quant, 'float', len(quant), 1, eta)
+            _, _, v_eta = oracle_select(X, y, quant2, 'float', len(quant2), 1, eta)
             seq = [v_eta.get(f) for f in r2[1]]
             if all(v is not None for v in seq) and all(abs(a - b) > 1e-9 for a, b in zip(seq, seq[1:])):
                 rec('select#post.ordered_by_the_last_requested_measure', all(a > b for a, b in zip(seq, seq[1:])), 'measures [kruskal, R]: returned %r with R values %r (not decreasing)' % (list(r2[1]), [round(v, 4) for v in seq]), dict(default_measures=False, dtype='float'))
